@@ -29,8 +29,8 @@ PROP_ID = "C05"
 DESIGN_REF = "6/C05"
 
 TRUSTED = [
-    "CPython float(str) rounding and repr(float) are not modelled: the model's float grammar yields the exact decimal "
-    "written in the string, repr(float(s)) enters the model through CEnv.floatRepr (supplied per request by the harness)",
+    "CPython float(str) rounding to binary64 and repr(float) are hand models (Conv/FloatRepr.lean: exact rational arithmetic, half-even, "
+    "shortest-digit search) compared through conv.float_repr and conv.de/conv.ser; float(repr(x)) = x is proved for the model (float_repr_rt)",
     "CPython int()/Decimal()/binascii/base64/str.strip/str.split/re '\\s' are hand models (Conv/*.lean) compared through conv.de/conv.ser",
     "Unicode tables (isspace, isdigit, decimal, isalpha) come from the interpreter that runs xsdata, regenerated each run",
     "XSD 1.1 Part 2 lexical grammars (boolean, integer, decimal, double, hexBinary, base64Binary, QName) in Props/C05.lean "
@@ -40,7 +40,8 @@ TRUSTED = [
 ASSUMPTIONS = [
     "ints have fewer than sys.get_int_max_str_digits() (4300) digits: beyond that CPython's int<->str conversion itself raises ValueError",
     "Decimal exponents stay within the decimal context limits (|exp| < 10**6 in the checks); signaling NaN comparisons are not modelled",
-    "float(repr(x)) == x and repr is the shortest round-tripping form (CPython guarantee, David Gay's algorithm)",
+    "CPython's repr(float) is the shortest round-tripping digit string (David Gay's algorithm): the model searches 1..17 digits the same way, "
+    "that 17 digits always suffice is not proved (the model falls back to the exact expansion, which is proved to read back)",
     "acceptance of strings outside the XSD lexical space (1_000, 'infinity', Unicode digits) is not forbidden by the statement; it is modelled, not judged",
     "enum classes have pairwise unequal member values (Python would alias them otherwise)",
 ]
@@ -552,7 +553,9 @@ def rand_float(rng):
 def rand_decimal(rng):
     r = rng.random()
     if r < 0.1:
-        return Decimal(rng.choice(["0", "-0", "0E+5", "0E-5", "-0.000", "1E+5", "1E-5", "Infinity", "-Infinity", "NaN", "-NaN", "NaN12", "sNaN"]))
+        return Decimal(rng.choice(["0", "-0", "0E+5", "0E-5", "-0.000", "-0E+3", "1E+5", "1E-5", "Infinity", "-Infinity", "NaN", "-NaN", "NaN12", "sNaN",
+                                   "-sNaN", "sNaN0012", "-NaN900", "NaN" + str(rng.randint(0, 10**rng.choice([1, 3, 20]))),
+                                   "sNaN" + str(rng.randint(1, 999))]))
     sign = rng.choice([0, 0, 1])
     nd = rng.choice([1, 1, 2, 3, 5, 12, 30])
     digits = [rng.randint(1, 9)] + [rng.randint(0, 9) for _ in range(nd - 1)]
@@ -1002,6 +1005,7 @@ DT_FORMATS = [
     "%Y-%m-%d", "%H:%M:%S", "%Y-%m-%dT%H:%M:%S", "%Y-%m-%dT%H:%M:%S.%f", "%d/%m/%Y", "%Y%m%d", "%H%M%S%f", "%d.%m.%Y %H:%M",
     "%m%d", "%Y", "%H:%M:%S.%f", "%S", "%Y-%m-%d %H:%M:%S", "%%%Y", "%d %m  %Y", "T%H", "%Y-%m-%dZ", "%Y-%m-%d\t%H", "(%Y)[%m]", "%m-%d", "%M", "%f",
     "%H.%M", "%Y+%m", "%d%m%Y", "%Y %m %d", " %Y", "%Y ", "x%dx",
+    "%%Y", "%%Y-%m-%d", "%%%%Y", "%%%%%Y", "%Y%%Y", "%%%Y%%", "%%Y%Y", "Y%Y", "%d%m%Y%H%M%S%f", "%H%%%M",
 ]
 DT_BAD_FORMATS = ["%Q", "%", "%Y%Y", "%Y-%", "% Y", "%.", "", "%Y-%m-%d%", "%k", "%-d", "%é", "%d%d"]
 DT_HAND = [
@@ -1034,7 +1038,7 @@ def rand_dt_format(rng):
         return rng.choice(DT_BAD_FORMATS)
     dirs = ["%Y", "%m", "%d", "%H", "%M", "%S", "%f", "%%"]
     rng.shuffle(dirs)
-    lits = ["-", ":", "T", " ", "/", ".", "  ", "", "", "", "x", "1", "(", "+", "[", "Z"]
+    lits = ["-", ":", "T", " ", "/", ".", "  ", "", "", "", "x", "1", "(", "+", "[", "Z", "Y", "%%", "%%Y"]
     out = rng.choice(lits)
     for d in dirs[: rng.randint(0, 6)]:
         out += d + rng.choice(lits)
@@ -1221,7 +1225,7 @@ def impl_strptime(a):
 
 def impl_strftime(a):
     try:
-        return ok(_dt.datetime(*a["v"]).strftime(a["fmt"]))
+        return ok(converter.serialize(_dt.datetime(*a["v"]), format=a["fmt"]))
     except Exception:  # noqa: BLE001
         return err("ValueError")
 
@@ -1232,7 +1236,18 @@ def gen_strptime(rng, tier):
             yield {"s": c["s"], "fmt": c["kw"]["format"]}
 
 
+PCT_Y_FORMATS = ["%Y", "%%Y", "%%%Y", "%%%%Y", "%%%%%Y", "%Y%%", "%%Y%Y", "%Y%%Y", "Y%Y", "%Y-%m-%d", "%d/%m/%Y", "%%%Y-%m", "%m%%Y%d", "%Y%m%d"]
+
+
 def gen_strftime(rng, tier):
+    for f in PCT_Y_FORMATS:
+        for y in (1, 9, 10, 99, 100, 999, 1000, 2024, 9999):
+            yield {"v": [y, 2, 3, 4, 5, 6, 7], "fmt": f}
+    for _ in range(400 if tier == "quick" else 8000):
+        d = rand_py_dt(rng, "datetime")
+        f = rng.choice(PCT_Y_FORMATS) if rng.random() < 0.3 else rand_dt_format(rng)
+        if fmt_ser_supported(f):
+            yield {"v": [d.year, d.month, d.day, d.hour, d.minute, d.second, d.microsecond], "fmt": f}
     for c in gen_ser_round_d(rng, tier):
         v = c["v"]
         if c["kw"]["format"] is None or v["t"] not in ("pydate", "pytime", "pydatetime"):
@@ -1263,6 +1278,10 @@ def classify_de(a, o):
 def classify_ser(a, o):
     v = a["v"]
     k = v["t"] + (":" + v["k"] if v["t"] in ("bytes", "dec") else "")
+    if v["t"] == "dec" and v["k"] == "fin":
+        k += (":exp>0" if v["exp"] > 0 else ":exp<0" if v["exp"] < 0 else ":exp0") + (":-0" if v["neg"] and v["coeff"] == 0 else "")
+    if v["t"] == "dec" and v["k"] == "nan":
+        k += (":s" if v["sig"] else "") + (":payload" if v["diag"] else "")
     if v["t"] == "qname":
         k += ":map" if a["kw"]["ns_map"] is not None else ":nomap"
     if v["t"] == "float":
@@ -1299,7 +1318,8 @@ def classify_text_split(a, o):
 
 def classify_strftime(a, o):
     ds = dt_directives(a["fmt"])
-    return f"dirs{min(len(ds), 4)}" + (":Y<1000" if "Y" in ds and a["v"][0] < 1000 else "") + (":f" if "f" in ds else "")
+    return (f"dirs{min(len(ds), 4)}" + (":Y<1000" if "Y" in ds and a["v"][0] < 1000 else "") + (":f" if "f" in ds else "")
+            + (":%%Y" if "%%Y" in a["fmt"] else ":%%" if "%%" in a["fmt"] else "") + ("->err" if "err" in o else ""))
 
 
 def classify_float_lit(a, o):
@@ -1324,7 +1344,7 @@ CORRS = [
     Corr("conv.float_repr", gen_float_repr, impl_float_repr, classify=classify_float_repr, nontrivial=lambda a, o: "ok" in o,
          describe="repr(float(s)) computed exactly in Lean (round-half-even to binary64, shortest repr) vs CPython"),
     Corr("conv.strptime", gen_strptime, impl_strptime, classify=classify_strptime, describe="datetime.strptime for numeric directives vs the regex-order matcher"),
-    Corr("conv.strftime", gen_strftime, impl_strftime, classify=classify_strftime, describe="strftime (glibc: %Y unpadded) for numeric directives"),
+    Corr("conv.strftime", gen_strftime, impl_strftime, classify=classify_strftime, describe="DateTimeBase.serialize (strftime, %Y padded to four digits) for numeric directives"),
     Corr("ns.split_qname", gen_split_qname, impl_split_qname, compare=cmp_split_qname, classify=classify_split_qname),
     Corr("ns.build_qname", gen_build_qname, impl_build_qname),
     Corr("ns.is_ncname", gen_is_ncname, impl_is_ncname, classify=classify_bool),
@@ -1736,7 +1756,9 @@ def oracle_roundtrip(a):
     if isinstance(val, float) and math.isnan(val):
         good = isinstance(back, float) and math.isnan(back)
     elif isinstance(val, Decimal) and val.is_nan():
-        good = back.is_nan()
+        good = type(back) is Decimal and back.as_tuple() == val.as_tuple()  # sign, signaling flag and payload (decimal_nan_rt)
+    elif isinstance(val, Decimal):
+        good = type(back) is Decimal and back == val and back.is_signed() == val.is_signed()  # -0 stays -0 (decimal_fin_rt)
     elif isinstance(val, float):
         good = back == val and math.copysign(1, back) == math.copysign(1, val)
     elif isinstance(val, QName):
@@ -1962,23 +1984,6 @@ def covered_roundtrip(a, msg):
     v = a["v"]
     kw = a["kw"]
     inner = v["v"] if v["t"] == "member" else v
-    if inner["t"] in ("pydate", "pydatetime") and inner["v"][0] < 1000 and "Y" in dt_directives(kw.get("format") or ""):
-        # C05-strftime-year: the text is the platform's strftime output with the year not padded, and reading it back does
-        # exactly what the stdlib strptime does with that text (rejects it, or splits the digits differently)
-        val = dec_atom(inner)
-        f = kw["format"]
-        s, back = _observe_roundtrip(a)
-        ref = _ref_strftime(val, f)
-        if s is None or ref is None or s != ref or v["t"] == "member":
-            return None
-        try:
-            std = _dt.datetime.strptime(s, f)
-            std = ("ok", std if isinstance(val, _dt.datetime) else std.date())
-        except ValueError:
-            std = ("err", "ConverterError")
-        if std == ("ok", val):
-            return None  # the stdlib reads the text back: whatever failed is something else
-        return "C05-strftime-year" if back == std else None
     if inner["t"] == "qname":
         ns, local = qname_parts(inner["v"])
         s, back = _observe_roundtrip(a)
@@ -2088,7 +2093,7 @@ def adapt_accepts(op, a):
 
 
 def gen_o_roundtrip(rng, tier):
-    yield from gen_ser(rng, "quick")
+    yield from gen_ser(rng, tier)  # the thorough tier goes on into the larger random part until the sweep budget ends
 
 
 def gen_o_helpers(rng, tier):
@@ -2172,16 +2177,6 @@ def f_ncname_marks():
     return False, "accepted"
 
 
-def f_strftime_year():
-    d = _dt.date(999, 1, 2)
-    s = converter.serialize(d, format="%Y-%m-%d")
-    try:
-        back = converter.deserialize(s, [_dt.date], format="%Y-%m-%d")
-    except ConverterError:
-        return True, f"serialize(date(999, 1, 2), format='%Y-%m-%d') = {s!r}, which deserialize rejects with the same format"
-    return back != d, f"{s!r} -> {back!r}"
-
-
 def f_enum_ws_variant():
     cls = make_enum([{"t": "str", "v": "x"}, {"t": "str", "v": " x"}])
     members = list(cls)
@@ -2192,23 +2187,27 @@ def f_enum_ws_variant():
 
 FINDINGS = {
     "C05-enum-ws-variant": f_enum_ws_variant,
-    "C05-strftime-year": f_strftime_year,
     "C05-qname-default-ns": f_default_ns,
     "C05-ncname-unicode": f_ncname_marks,
 }
 
 LEVEL_TEXT = (
-    "Lean theorems over all values / all strings for the Bool, Int, Bytes (base16/base64, wrapper classes, missing formats), Decimal, Float "
-    "(exact binary64 rounding and shortest repr computed in the model; the repr always has the shape the canonical-spelling theorems need), "
-    "QName, Enum, the XmlDate/XmlTime/XmlDateTime/XmlDuration/XmlPeriod proxies, date/time/datetime with strptime/strftime formats "
-    "(%Y-%m-%d, %H:%M:%S, %Y-%m-%dT%H:%M:%S), sort_types / deserialize priority over every table type, type_converter, test(strict) soundness and "
-    "DataType.from_value against the lexical spaces (Props/C05.lean, C05Types.lean, C05Float.lean, C05Dates.lean), with the model tied to /repo by a "
-    "differential check of ConverterFactory.deserialize/serialize/test/sort_types/type_converter, DataType.from_value, float(str)/repr(float), "
-    "strptime/strftime and the namespaces helpers on hand-picked, bounded-exhaustive, random and malformed inputs."
+    "Lean theorems over all values / all strings for the Bool, Int, Bytes (base16/base64, wrapper classes, missing formats), Decimal "
+    "(every Decimal: finite with any exponent and sign of zero, INF, quiet/signaling NaN with payload), Float (exact binary64 rounding and "
+    "shortest repr computed in the model; float(repr(x)) = x for every double and deserialize(serialize(f)) = f for every float the converter "
+    "returns, with no hypothesis about CPython), QName, Enum, the XmlDate/XmlTime/XmlDateTime/XmlDuration/XmlPeriod proxies, "
+    "date/time/datetime with strptime/strftime formats (the standard ones incl. %f at full strength, years 1-9999; any format made of numeric "
+    "directives, %% and non-space literals; %Y-%m-%d %H:%M:%S), sort_types / deserialize priority over every table type, type_converter, "
+    "test(strict) soundness and DataType.from_value against the lexical spaces (Props/C05.lean, C05Types.lean, C05Float.lean, C05Dates.lean, "
+    "C05Decimal.lean), with the model tied to /repo by a differential check of ConverterFactory.deserialize/serialize/test/sort_types/"
+    "type_converter, DataType.from_value, float(str)/repr(float), strptime/strftime and the namespaces helpers on hand-picked, "
+    "bounded-exhaustive, random and malformed inputs."
 )
 LEVEL_NOTE = (
     "Trusted: Lean kernel; hand models of CPython int()/float() grammar and rounding/repr/Decimal()/format 'f'/binascii/strip/split/"
-    "_strptime (numeric directives %Y %m %d %H %M %S %f only) and glibc strftime; XSD lexical grammar transcriptions; the sampling "
-    "correspondence check (repr(float(s)) is compared on all floats with <= 3 significant digits x exponents -330..310 in the thorough tier). "
-    "Aware datetimes (%z), named-month/weekday directives and locale-dependent formats are outside the model."
+    "_strptime (numeric directives %Y %m %d %H %M %S %f only) and strftime (two-digit fields, %f, %Y as padded by DateTimeBase.serialize); "
+    "XSD lexical grammar transcriptions; the sampling correspondence check (repr(float(s)) is compared on all floats with <= 3 significant "
+    "digits x exponents -330..310 in the thorough tier). Not proved: that the model's repr is the shortest digit string (only that it reads "
+    "back); formats with white space in general. Aware datetimes (%z), named-month/weekday directives and locale-dependent formats are "
+    "outside the model."
 )
